@@ -2,6 +2,7 @@
 
 Every stub here is part of the claim of the checks that use it.
 """
+import ctypes
 import math
 import re
 from fractions import Fraction
@@ -482,6 +483,64 @@ BASE_STUBS = {
 }
 for _n in LIBM1 + LIBM2:
     BASE_STUBS[_n] = mk_libm(_n)
+
+
+class _C2(ctypes.Structure):
+    _fields_ = [('re', ctypes.c_double), ('im', ctypes.c_double)]
+
+
+_libgcc = None
+
+
+def _gcc_complex(name):
+    global _libgcc
+    if _libgcc is None:
+        _libgcc = ctypes.CDLL('libgcc_s.so.1')
+    f = getattr(_libgcc, name)
+    f.restype = _C2
+    f.argtypes = [ctypes.c_double] * 4
+    return f
+
+
+def complex_rt(name):
+    """__muldc3 / __divdc3: CONCRETE domain calls the runtime; symbolic domains use the textbook
+    formulas (identical for finite, non-overflowing operands)"""
+    def f(ex, st, args, I):
+        if all(isinstance(a, float) for a in args) and isinstance(ex.dom, (ConcDom, FPDom)):
+            r = _gcc_complex(name)(*args)
+            return [r.re, r.im]
+        a, b, c, d_ = args
+        D = ex.dom
+        def mul(x, y): return D.bin(ex, st, 'fmul', x, y)
+        def add(x, y): return D.bin(ex, st, 'fadd', x, y)
+        def sub(x, y): return D.bin(ex, st, 'fsub', x, y)
+        if name == '__muldc3':
+            return [sub(mul(a, c), mul(b, d_)), add(mul(a, d_), mul(b, c))]
+        den = add(mul(c, c), mul(d_, d_))
+        return [D.bin(ex, st, 'fdiv', add(mul(a, c), mul(b, d_)), den),
+                D.bin(ex, st, 'fdiv', sub(mul(b, c), mul(a, d_)), den)]
+    return f
+
+
+BASE_STUBS['__muldc3'] = complex_rt('__muldc3')
+BASE_STUBS['__divdc3'] = complex_rt('__divdc3')
+
+
+def _cabs(ex, st, args, I):
+    if all(isinstance(a, float) for a in args) and isinstance(ex.dom, (ConcDom, FPDom)):
+        _libm.hypot.restype = ctypes.c_double
+        return _libm.hypot(args[0], args[1])
+    D = ex.dom
+    s2 = D.bin(ex, st, 'fadd', D.bin(ex, st, 'fmul', args[0], args[0]), D.bin(ex, st, 'fmul', args[1], args[1]))
+    return libm_call(ex, st, 'sqrt', [s2])
+
+
+def _carg(ex, st, args, I):
+    return libm_call(ex, st, 'atan2', [args[1], args[0]])
+
+
+BASE_STUBS['cabs'] = _cabs
+BASE_STUBS['carg'] = _carg
 
 
 def fabs_stub(ex, st, args, I):
